@@ -1,5 +1,6 @@
 import JF.Driver.Core
 import JF.Model.Kinematics
+import JF.Model.EndOfChain
 namespace JF.Driver
 open JF JF.Kin
 
@@ -69,5 +70,17 @@ def sysComp : Comp where
         let u := timeSlice Ops.float L ⟨fl tq, fl tr⟩ ⟨pos, some vel, some ⟨fl tsq, fl tsr⟩⟩
         (s, joinSp (u.pos.map bits))
       | _ => (s, "bad-op")
+    | "eocvel" :: "periodic" :: dim :: v =>
+      match EndOfChain.newVelocityPeriodic Ops.float (nat! dim) (fls v) with
+      | .ok w => (s, joinSp (w.map bits))
+      | .error _ => (s, "err:AssertionError")
+    | ["eocvel", "seq", c, sn, v0, v1] =>
+      match EndOfChain.newVelocitySequential (fl c) (fl sn) [fl v0, fl v1] with
+      | .ok w => (s, joinSp (w.map bits))
+      | .error _ => (s, "err:AssertionError")
+    | ["eoctime", lq, lr, cq, cr, chain] =>
+      match EndOfChain.eventTime Ops.float ⟨fl lq, fl lr⟩ ⟨fl cq, fl cr⟩ (fl chain) with
+      | .ok t => (s, s!"{bits t.q} {bits t.r}")
+      | .error _ => (s, "err:AssertionError")
     | _ => (s, "bad-op")
 end JF.Driver
